@@ -45,6 +45,22 @@ func (m *Message) valueSize() uint16 {
 	}
 }
 
+// valueSizeInt returns the value size of a message without the 16 bit wrap-around of valueSize,
+// so that oversized values can be detected.
+func (m *Message) valueSizeInt() int {
+	if m.DataType.length() == 0 && m.DataType != None {
+		switch v := m.Value.(type) {
+		case string:
+			return len(v)
+		case []byte:
+			return len(v)
+		case []Message:
+			return messagesSizeInt(v)
+		}
+	}
+	return int(m.DataType.length())
+}
+
 // validateResponse checks the integrity of the response
 //
 // must contain a valid tag and data type and the data type must match the value
@@ -62,7 +78,7 @@ func (m *Message) validate() error {
 	if !m.DataType.isValidValue(m.Value) {
 		return fmt.Errorf("expected %T got %T : %w", m.DataType.newEmpty(0), m.Value, ErrDataTypeValueMismatch)
 	}
-	if m.valueSize() > RSCP_DATA_MAX_DATA_SIZE {
+	if m.valueSizeInt() > int(RSCP_DATA_MAX_DATA_SIZE) {
 		return ErrRscpDataLimitExceeded
 	}
 	if m.DataType == Container {
